@@ -47,7 +47,7 @@ var optional = []string{"OU", "CN", "L", "STREET"}
 // subject is the generator's description of a certificate subject.
 type subject struct {
 	Label string   `json:"label"`
-	RDNs  [][]attr `json:"rdns"` // as encoded: one inner slice per RDN (len>1: multi-valued RDN)
+	RDNs  [][]attr `json:"rdns"`  // as encoded: one inner slice per RDN (len>1: multi-valued RDN)
 	Clean bool     `json:"clean"` // plain subject over known types with simple values: the oracle is an equivalence
 }
 
@@ -290,12 +290,15 @@ type caseT struct {
 	Subject subject `json:"subject"`
 	List    idList  `json:"list"`
 	Format  int     `json:"format"`
+	// Prior 1: the same verifier instance (same identity list) verified, immediately before, a signature whose
+	// leaf carries the full clean subject C=US,ST=WA,O=Acme,OU=eng,CN=alice,L=Seattle,STREET=1 Main.
+	Prior int `json:"prior"`
 }
 
 type world struct {
-	root, inter         *pki.Cert
+	root, inter           *pki.Cert
 	interAttrs, rootAttrs []attr
-	desc                ocispec.Descriptor
+	desc                  ocispec.Descriptor
 }
 
 var ctx = context.Background()
@@ -306,6 +309,10 @@ func (w *world) leafFor(s subject, idx int) *pki.Chain {
 }
 
 func (w *world) run(r *hx.Run, c caseT, env []byte) {
+	w.runWith(r, c, env, nil)
+}
+
+func (w *world) runWith(r *hx.Run, c caseT, env []byte, priorEnv []byte) {
 	ids := []string{}
 	if c.List.Wild {
 		ids = []string{"*"}
@@ -315,7 +322,10 @@ func (w *world) run(r *hx.Run, c caseT, env []byte) {
 	}
 	ts := mocks.NewTrustStore().Put("ca", "s", w.root.Cert)
 	bad := func(key, what string) {
-		r.Violation(key, fmt.Sprintf("%s | leaf=%s (%v) identities=%q", what, c.Subject.Label, c.Subject.RDNs, ids), c)
+		if c.Prior == 1 {
+			key += ":after-earlier-verification-on-same-verifier"
+		}
+		r.Violation(key, fmt.Sprintf("%s | leaf=%s (%v) identities=%q prior=%d", what, c.Subject.Label, c.Subject.RDNs, ids, c.Prior), c)
 	}
 	r.Eval(1)
 	v, err := verifier.NewVerifierWithOptions(ts, verifier.VerifierOptions{OCITrustPolicy: vt.OCIDoc(trustpolicy.SignatureVerification{VerificationLevel: "strict"}, []string{"ca:s"}, ids), RevocationCodeSigningValidator: mocks.AllOK()})
@@ -333,6 +343,10 @@ func (w *world) run(r *hx.Run, c caseT, env []byte) {
 		}
 		r.Outcome("refused-at-construction")
 		return
+	}
+	if priorEnv != nil {
+		r.Eval(1)
+		_, _ = v.Verify(ctx, w.desc, priorEnv, notation.VerifierVerifyOptions{ArtifactReference: "reg.io/r@" + w.desc.Digest.String(), SignatureMediaType: forge.Formats[c.Format]})
 	}
 	outcome, verr := v.Verify(ctx, w.desc, env, notation.VerifierVerifyOptions{ArtifactReference: "reg.io/r@" + w.desc.Digest.String(), SignatureMediaType: forge.Formats[c.Format]})
 	if outcome == nil {
@@ -440,10 +454,25 @@ func main() {
 		}
 		ch := w.leafFor(c.Subject, 0)
 		env := forge.Build(forge.Spec{Format: forge.Formats[c.Format], Chain: ch.X509(), Key: ch.Leaf().Key, Payload: forge.PayloadFor(w.desc), SigningTime: time.Now().Add(-time.Hour)})
-		w.run(r, c, env)
+		if c.Prior == 1 {
+			fullSubj := plain("prior-full", attr{"C", "US"}, attr{"ST", "WA"}, attr{"O", "Acme"}, attr{"OU", "eng"}, attr{"CN", "alice"}, attr{"L", "Seattle"}, attr{"STREET", "1 Main"})
+			pch := w.leafFor(fullSubj, 0)
+			w.runWith(r, c, env, forge.Build(forge.Spec{Format: forge.Formats[c.Format], Chain: pch.X509(), Key: pch.Leaf().Key, Payload: forge.PayloadFor(w.desc), SigningTime: time.Now().Add(-time.Hour)}))
+		} else {
+			w.run(r, c, env)
+		}
 		r.Finish()
 	}
 
+	// the signature verified first in the instance-reuse cases
+	var priorEnvs [2][]byte
+	{
+		fullSubj := plain("prior-full", attr{"C", "US"}, attr{"ST", "WA"}, attr{"O", "Acme"}, attr{"OU", "eng"}, attr{"CN", "alice"}, attr{"L", "Seattle"}, attr{"STREET", "1 Main"})
+		pch := w.leafFor(fullSubj, 0)
+		for f := 0; f < 2; f++ {
+			priorEnvs[f] = forge.Build(forge.Spec{Format: forge.Formats[f], Chain: pch.X509(), Key: pch.Leaf().Key, Payload: forge.PayloadFor(w.desc), SigningTime: time.Now().Add(-time.Hour)})
+		}
+	}
 	var controls, controlsOK int
 	nLists := 0
 	r.Parallel(len(subjects), func(i int) {
@@ -457,6 +486,7 @@ func main() {
 			env := forge.Build(forge.Spec{Format: forge.Formats[f], Chain: ch.X509(), Key: ch.Leaf().Key, Payload: forge.PayloadFor(w.desc), SigningTime: time.Now().Add(-time.Hour)})
 			for _, l := range lists {
 				w.run(r, caseT{Subject: s, List: l, Format: f}, env)
+				w.runWith(r, caseT{Subject: s, List: l, Format: f, Prior: 1}, env, priorEnvs[f])
 			}
 		}
 		if i%17 == 0 {
